@@ -902,6 +902,29 @@ func c01PhaseB(emit func(cs *c01Case, alone bool)) {
 		emit(&c01Case{Phase: "B", Toks: []string{"(", a, ")"}, Class: "atom:" + k.String()}, false)
 		emit(&c01Case{Phase: "B", Toks: []string{"!", a}, Class: "not:" + cat}, false)
 		emit(&c01Case{Phase: "B", Toks: []string{"!", "(", a, ")"}, Class: "not:" + cat}, false)
+		// negations and brackets directly nested in each other
+		for _, toks := range [][]string{
+			{"(", "(", a, ")", ")"},
+			{"!", "(", "!", a, ")"},
+			{"!", "(", "(", "!", a, ")", ")"},
+			{"!", "(", "!", "(", a, ")", ")"},
+			{"(", "!", "(", "!", a, ")", ")"},
+			{"!", "(", "!", "(", "!", a, ")", ")"},
+		} {
+			emit(&c01Case{Phase: "B", Toks: toks, Class: "nest:" + cat}, false)
+		}
+	}
+	// ... and around comparisons / logic
+	for _, pair := range [][3]string{{"lit:1", "<", "lit:2"}, {"lit:2", "<", "lit:1"}, {"lit:true", "&&", "lit:false"}, {"lit:true", "||", "lit:false"}} {
+		x, op, y := pair[0], pair[1], pair[2]
+		for _, toks := range [][]string{
+			{"!", "(", "!", "(", x, op, y, ")", ")"},
+			{"!", "(", "(", "!", "(", x, op, y, ")", ")", ")"},
+			{"!", "(", "!", "(", x, op, y, ")", ")", "&&", "lit:true"},
+			{"lit:false", "||", "!", "(", "!", "(", x, op, y, ")", ")"},
+		} {
+			emit(&c01Case{Phase: "B", Toks: toks, Class: "nest:bool"}, false)
+		}
 	}
 	for _, op := range c01Ops {
 		for _, a := range alpha {
@@ -1187,7 +1210,7 @@ func init() {
 		BudgetThor:  15 * time.Minute,
 		Kind:        "cases",
 		Rule: "rule texts `return <expr>`: (A) every string of <=2 (thorough <=3) binary operators out of 12 x every well-nested parenthesisation of contiguous operand runs x every placement of ! on boolean positions x 2 valuations (literals / injected) with type-directed distinguishing leaves, untypable strings kept (expected: error); " +
-			"(B) every atom of a 79-entry alphabet (literals, locals, injected values of all Go numeric kinds + string + bool at their boundaries) alone / parenthesised / negated, every operator x ordered pair of atoms, thorough: every two-operator arithmetic chain over 21 representatives; " +
+			"(B) every atom of a 79-entry alphabet (literals, locals, injected values of all Go numeric kinds + string + bool at their boundaries) alone / parenthesised / negated / with negations and brackets directly nested in each other (`!(!a)`, `!((!a))`, `(!(!a))`, `!(!(!a))`, also around comparisons and logic), every operator x ordered pair of atoms, thorough: every two-operator arithmetic chain over 21 representatives; " +
 			"(C) @name @id @desc @sal alone and inside arithmetic / comparison / concatenation x 7 rule names x description present/absent x salience absent/negative/positive. " +
 			"Each text is one distinct program, executed once on the real engine and compared with ref/expr.go: value (dynamic Go type and bits) and nil error, or error and no result entry, never a panic",
 		Assume:     []string{"a text the rule builder rejects counts as failing with an error (only texts whose reference outcome is an error are affected)"},
